@@ -3,13 +3,13 @@
 package vsimharness
 
 import (
-	"strconv"
 	"bufio"
 	"crypto/sha256"
 	"encoding/hex"
 	"encoding/json"
 	"fmt"
 	"os"
+	"strconv"
 	"testing"
 	"time"
 
@@ -34,20 +34,20 @@ type Job struct {
 
 // ReplayFile is the on-disk form of a failing run.
 type ReplayFile struct {
-	Property string        `json:"property"`
-	Variant  string        `json:"variant"`
-	Tier     string        `json:"tier"`
-	RunSeed  uint64        `json:"run_seed"`
-	RunIndex int           `json:"run_index"`
-	Class    string        `json:"class"`
-	Msg      string        `json:"msg"`
-	Hash     uint64        `json:"schedule_hash"`
-	Steps    int           `json:"steps"`
-	Minimised bool         `json:"minimised"`
-	OrigTapeLen int        `json:"orig_tape_len"`
-	NonZero  int           `json:"nonzero_choices"`
-	Tape     [][3]uint32   `json:"tape"` // (kind, n, value)
-	Notes    []string      `json:"notes,omitempty"`
+	Property    string      `json:"property"`
+	Variant     string      `json:"variant"`
+	Tier        string      `json:"tier"`
+	RunSeed     uint64      `json:"run_seed"`
+	RunIndex    int         `json:"run_index"`
+	Class       string      `json:"class"`
+	Msg         string      `json:"msg"`
+	Hash        uint64      `json:"schedule_hash"`
+	Steps       int         `json:"steps"`
+	Minimised   bool        `json:"minimised"`
+	OrigTapeLen int         `json:"orig_tape_len"`
+	NonZero     int         `json:"nonzero_choices"`
+	Tape        [][3]uint32 `json:"tape"` // (kind, n, value)
+	Notes       []string    `json:"notes,omitempty"`
 }
 
 func tapeToJSON(t []vsimrt.Draw) [][3]uint32 {
@@ -107,21 +107,21 @@ func pickVariant(ws []*Workload, idx int) (*Workload, int) {
 
 // Agg is the per-process aggregate of a batch.
 type Agg struct {
-	Runs      int               `json:"runs"`
-	Steps     int64             `json:"steps"`
-	SimNs     int64             `json:"sim_ns"`
-	Preempted int               `json:"preempted_runs"`
-	Ext       int               `json:"ext"`
-	Created   int64             `json:"created"`
-	Hashes    []uint64          `json:"hashes"`     // schedule hashes of all runs
-	NonTriv   []uint64          `json:"nontrivial"` // hashes of runs with >=1 pre-emption or >=1 fired fault
-	Kinds     map[string]int    `json:"kinds"`
-	Counts    map[string]int    `json:"counts"`
-	PerVariant map[string]int   `json:"per_variant"`
-	Samples   []any             `json:"samples"`
-	Undecided map[string]int    `json:"undecided"`
-	NextIdx   int               `json:"next_idx"`
-	WallMs    int64             `json:"wall_ms"`
+	Runs       int            `json:"runs"`
+	Steps      int64          `json:"steps"`
+	SimNs      int64          `json:"sim_ns"`
+	Preempted  int            `json:"preempted_runs"`
+	Ext        int            `json:"ext"`
+	Created    int64          `json:"created"`
+	Hashes     []uint64       `json:"hashes"`     // schedule hashes of all runs
+	NonTriv    []uint64       `json:"nontrivial"` // hashes of runs with >=1 pre-emption or >=1 fired fault
+	Kinds      map[string]int `json:"kinds"`
+	Counts     map[string]int `json:"counts"`
+	PerVariant map[string]int `json:"per_variant"`
+	Samples    []any          `json:"samples"`
+	Undecided  map[string]int `json:"undecided"`
+	NextIdx    int            `json:"next_idx"`
+	WallMs     int64          `json:"wall_ms"`
 }
 
 func TestWorker(t *testing.T) {
